@@ -842,3 +842,64 @@ Section TotalityIter.
   Qed.
 End TotalityIter.
 
+
+(* ---- inside the guard of the open finding the code fails closed: ValueError, nothing yielded ---- *)
+Section KnownMeansValueError.
+  Context {F : Type} (fo : fops F) (OL : order_laws fo).
+  Local Notation le x y := (fleb fo x y = true).
+  Local Notation lt x y := (fltb fo x y = true).
+  Local Notation zero := (f0 fo).
+  Variables start stop factor : F.
+  Hypothesis Hvalid : valid fo start stop factor = true.
+
+  Lemma stall_detected : forall fuel u n, le zero u ->
+    stalls fo stop factor (fmin fo u stop) fuel = true ->
+    default_count fo fuel stop factor u n = DCStall.
+  Proof.
+    pose proof (num_stop fo OL start stop factor Hvalid) as Hns.
+    induction fuel as [|k IH]; intros u n Hu H; [discriminate|].
+    cbn [stalls] in H. apply andb_true_iff in H as [La H].
+    assert (L : lt u stop).
+    { unfold fmin in La. destruct (fleb fo u stop) eqn:E; [exact La|].
+      rewrite (le_nlt fo OL stop stop Hns) in La. discriminate. }
+    rewrite (fmin_lt_l fo OL stop u L) in H.
+    rewrite (next_of_count_step fo stop factor u) in H.
+    cbn [default_count]. rewrite L.
+    set (nxt := if negb (feqb fo u zero) then fmul fo u factor else f1 fo) in *.
+    destruct (fltb fo u nxt) eqn:G; simpl negb; cbv iota; [|reflexivity].
+    assert (G' : lt u (fmin fo nxt stop)) by (unfold fmin; destruct (fleb fo nxt stop); assumption).
+    rewrite G' in H. simpl in H.
+    apply IH; auto.
+    eapply (leb_trans fo OL); eauto. apply (lt_le fo OL), G.
+  Qed.
+
+  Theorem known_raises_value_error : forall api c j take fuel draws,
+    let p := mkP api start stop c factor j take in
+    spec_known fo p fuel = true -> (api = ApiList \/ take <> O) ->
+    run fo p fuel draws = mkObs [] (ERaise ValueError).
+  Proof.
+    intros api c j take fuel draws p K Hap. unfold spec_known in K.
+    apply andb_true_iff in K as [K St]. apply andb_true_iff in K as [K Hc].
+    apply andb_true_iff in K as [M _]. cbn [p p_count p_stop p_factor p_start] in *.
+    destruct c; try discriminate.
+    destruct (valid_parts fo start stop factor Hvalid) as (H0 & Hss & _).
+    assert (Hfm : fmin fo start stop = start) by (unfold fmin; now rewrite Hss).
+    rewrite <- Hfm in St.
+    pose proof (stall_detected fuel start 1%Z H0 St) as D.
+    subst p. unfold run. cbn [p_api p_start p_stop p_count p_factor p_jitter p_take].
+    rewrite (prepare_valid fo OL fuel start stop factor CNone j Hvalid), D.
+    destruct api; [reflexivity|]. destruct take; [|reflexivity].
+    destruct Hap; [discriminate|congruence].
+  Qed.
+End KnownMeansValueError.
+
+Theorem known_means_value_error : forall (F : Type) (fo : fops F), order_laws fo ->
+  forall p fuel draws, spec_known fo p fuel = true -> (p_api p = ApiList \/ p_take p <> O) ->
+  run fo p fuel draws = mkObs [] (ERaise ValueError).
+Proof.
+  intros F fo OL [api start stop c factor j take] fuel draws K Hap.
+  assert (V : valid fo start stop factor = true).
+  { unfold spec_known in K. repeat (apply andb_true_iff in K as [K _]).
+    apply negb_true_iff in K. now destruct (must_raise_false_parts fo _ K). }
+  exact (known_raises_value_error fo OL start stop factor V api c j take fuel draws K Hap).
+Qed.
